@@ -90,6 +90,8 @@ inductive Op where
   /-- a transfer between users (neither side is the service) -/
   | userTransfer (token src dst : Addr) (amount : Int) (authorised : Bool)
   | adminMint (token dst : Addr) (amount : Int)
+  /-- the owner upgrades the contract to its own code and runs the (empty) migration -/
+  | upgradeMigrate (auths : List Addr)
 
 def apply (H : Bytes → Bytes) (st : State) : Op → Except Err (State × List Event)
   | .payGas au s c d p sp t a m => payGas H st au s c d p sp t a m
@@ -107,11 +109,25 @@ def apply (H : Bytes → Bytes) (st : State) : Op → Except Err (State × List 
     else match st.bank.mint t d a with
       | none => .error .tokenCallFailed
       | some b => .ok ({ st with bank := b }, [])
+  | .upgradeMigrate au => if st.owner ∈ au then .ok (st, []) else .error .unauthorized
 
 def step (H : Bytes → Bytes) (st : State) (op : Op) : State × Except Err (List Event) :=
   match apply H st op with
   | .ok (st', evs) => (st', .ok evs)
   | .error e => (st, .error e)
+
+/-- upgrade to the same code + the empty migration: whatever `apply` answers, the state is the one it started from -/
+theorem apply_upgradeMigrate_ok (H : Bytes → Bytes) (st : State) (au : List Addr) (r : State × List Event)
+    (h : apply H st (.upgradeMigrate au) = .ok r) : r = (st, []) ∧ st.owner ∈ au := by
+  simp only [apply] at h
+  split at h
+  · rename_i hc; cases h; exact ⟨rfl, hc⟩
+  · cases h
+
+theorem step_upgradeMigrate_fst (H : Bytes → Bytes) (st : State) (au : List Addr) :
+    (step H st (.upgradeMigrate au)).1 = st := by
+  simp only [step, apply]
+  by_cases h : st.owner ∈ au <;> simp [h]
 
 def run (H : Bytes → Bytes) (st : State) : List Op → State
   | [] => st
